@@ -91,9 +91,50 @@ func preEdit(t *tree.Tree, pre *Sexp, obs *Sexp) error {
 	return nil
 }
 
+// handBuilt assembles the tree through NewNode/ConnectNodes with arbitrary branch directions
+// (BuildTreeAPI), then does what a library user does: Reroot on a node of the tree (the library's
+// way to orient a hand-made tree), then ReinitIndexes.
+//
+//	case: ((op handbuilt) (tree T) (flip (T|F ...)) (i n))     T with the parent slot first everywhere
+func handBuilt(c *Sexp) *Sexp {
+	flips := []bool{}
+	if f := c.Get("flip"); f != nil {
+		for _, b := range f.List {
+			flips = append(flips, b.Atom == "T")
+		}
+	}
+	t, err := BuildTreeAPI(c.Get("tree"), flips)
+	if err != nil {
+		return L(KV("panic", A("build: "+err.Error())))
+	}
+	nodes := t.Nodes()
+	i := c.Int("i")
+	var n *tree.Node
+	if i < len(nodes) {
+		n = nodes[i]
+	} else {
+		n = t.NewNode()
+	}
+	operr := t.Reroot(n)
+	if operr == nil {
+		if err := t.ReinitIndexes(); err != nil {
+			return L(KV("panic", A("indexing after Reroot: "+err.Error())))
+		}
+	}
+	d, audit := ObserveTree(t)
+	obs := L(KV("err", A(errStr(operr))), KV("tree", d), KV("audit", audit))
+	if operr == nil {
+		obs.List = append(obs.List, indexState(t)...)
+	}
+	return obs
+}
+
 func c05(c *Sexp) *Sexp {
 	if c.Str("op") == "outgroup_multi" {
 		return outgroupMulti(c)
+	}
+	if c.Str("op") == "handbuilt" {
+		return handBuilt(c)
 	}
 	if c.Str("op") == "outgroup" && c.Get("pre") != nil {
 		log.SetOutput(ioutil.Discard)
